@@ -26,6 +26,22 @@ fn setup_mixed(p: &Project) {
   p.rule("py.yml", &json!({"id": "lang-py", "language": "Python", "severity": "error", "message": "m", "rule": {"pattern": "foo($A)"}, "files": ["**/*.py"]}));
 }
 
+/// a path holding U+FFFD stands for a file whose NAME is not valid UTF-8 (the byte 0xE9 in its place): reported with the
+/// replacement character, like every other file of the tree
+fn write_file(p: &Project, path: &str, content: &[u8]) {
+  if path.contains('\u{fffd}') {
+    use std::os::unix::ffi::OsStrExt;
+    let raw: Vec<u8> = path.replace('\u{fffd}', "\u{1}").bytes().map(|b| if b == 1 { 0xE9 } else { b }).collect();
+    let full = std::path::Path::new(&p.root).join(std::ffi::OsStr::from_bytes(&raw));
+    if let Some(d) = full.parent() {
+      std::fs::create_dir_all(d).unwrap();
+    }
+    std::fs::write(full, content).unwrap();
+  } else {
+    p.write(path, content);
+  }
+}
+
 pub fn drive(seed: u64, outdir: &str, thorough: bool) {
   let mut rng = Rng::new(seed ^ 0xC17);
   std::fs::create_dir_all(outdir).unwrap();
@@ -98,6 +114,9 @@ pub fn drive(seed: u64, outdir: &str, thorough: bool) {
       } };
       files.push((path, content, fault));
     }
+    if tree == 1 {
+      files.push(("a/caf\u{fffd}.js".to_string(), b"foo(1); foo(2);\n".to_vec(), "ok"));
+    }
     let threads: Vec<usize> = if mixed { vec![1, 2, 4] } else if lonely { vec![2, 4, 8] } else if big { (if thorough { vec![2, 8, 16] } else { vec![8] }) } else if thorough { vec![1, 2, 3, 4, 8, 16] } else { vec![1, 2, 4, 16] };
     let reps = if big { 1 } else if lonely { 3 } else if thorough { 4 } else { 2 };
     let reps = if mixed { 2 } else { reps };
@@ -114,12 +133,16 @@ pub fn drive(seed: u64, outdir: &str, thorough: bool) {
     let files = &jobs.iter().find(|j| j.0 == tree).unwrap().1;
     let p = Project::new(&format!("{scratch}/ref{tree}"));
     for (path, content, _) in files {
-      p.write(path, content);
+      write_file(&p, path, content);
     }
     if tree == mixed_tree {
       setup_mixed(&p);
     }
     let refs = cli::par_map(files, 12, |_, (path, _, _)| {
+      if path.contains('\u{fffd}') {
+        // the name cannot be passed on a command line as text: its two findings are written down
+        return vec![format!("{path}:0:6"), format!("{path}:8:14")];
+      }
       let o = if tree == mixed_tree { run_sgv(&["scan", "--json=stream", path], &p.root, None, 60, &[]) }
         else { run_sgv(&["run", "-p", "foo($A)", "-l", "js", "--json=stream", path], &p.root, None, 60, &[]) };
       json_lines(&o.stdout).iter().map(key).collect::<Vec<_>>()
@@ -133,7 +156,7 @@ pub fn drive(seed: u64, outdir: &str, thorough: bool) {
   let results = cli::par_map(&jobs, 4, |idx, (tree, files, j, rep, sched, slow)| {
     let p = Project::new(&format!("{scratch}/run{idx}"));
     for (path, content, _) in files {
-      p.write(path, content);
+      write_file(&p, path, content);
     }
     let trace = format!("{scratch}/trace{idx}.ndjson");
     let _ = std::fs::remove_file(&trace);
